@@ -216,7 +216,7 @@ func (eng *Engine) tagByName(name string) (int, bool) {
 
 // box: immutable boxing of a value into an interface (tag, ref)
 func (eng *Engine) box(vc *VC, t types.Type, comps []string) []string {
-	if _, isIface := t.Underlying().(*types.Interface); isIface {
+	if isIfaceT(t) {
 		return comps
 	}
 	tag := eng.tagOf(t)
@@ -356,7 +356,19 @@ func (eng *Engine) findFunction(key string) *ssa.Function {
 					return f
 				}
 			case *ssa.Type:
+				if named, ok := x.Type().(*types.Named); ok {
+					for i := 0; i < named.NumMethods(); i++ {
+						if fn := eng.prog.FuncValue(named.Method(i)); fn != nil {
+							if f := matchFn(fn, key); f != nil {
+								return f
+							}
+						}
+					}
+				}
 				for _, t := range []types.Type{x.Type(), types.NewPointer(x.Type())} {
+					if named, ok := x.Type().(*types.Named); ok && named.TypeParams().Len() > 0 {
+						break
+					}
 					ms := eng.prog.MethodSets.MethodSet(t)
 					for i := 0; i < ms.Len(); i++ {
 						if fn := eng.prog.MethodValue(ms.At(i)); fn != nil {
